@@ -94,6 +94,26 @@ func judge(t interface {
 	return res
 }
 
+// disabledNotYetStopped rewrites a work scenario with a panicking service worker: module management is on and the
+// module has been disabled, but no management pass has stopped it yet (or it is enabled again before the next pass).
+// It is online and not stopping, so its panicking service worker is restarted like any other.
+func disabledNotYetStopped(sc *modsim.Scenario, reenable bool) {
+	last := &sc.Modules[len(sc.Modules)-1]
+	for i := range last.Work {
+		if last.Work[i].ID == 100 {
+			last.Work[i].HoldUS = 15000
+		}
+	}
+	sc.Mgmt = true
+	sc.Enabled = allNames(sc)
+	steps := []modsim.Step{sc.Steps[0], sc.Steps[1], {Op: "disable", Mods: []string{last.Name}}}
+	if reenable {
+		steps = append(steps, modsim.Step{Op: "sleep", US: 30000}, modsim.Step{Op: "enable", Mods: []string{last.Name}}, modsim.Step{Op: "manage"})
+	}
+	sc.Steps = append(steps, sc.Steps[2:]...)
+	stats.Class("service_panic_in_disabled_module_not_yet_stopped")
+}
+
 // TestExhaustiveWorkPanics enumerates kind x panic value x position (alone, first, last among healthy items).
 func TestExhaustiveWorkPanics(t *testing.T) {
 	n := int64(0)
@@ -117,6 +137,15 @@ func TestExhaustiveWorkPanics(t *testing.T) {
 					stats.Sample("work_table", sc)
 				}
 			}
+		}
+	}
+	for _, pk := range modsim.PanicKinds {
+		for _, reenable := range []bool{false, true} {
+			mods := []modsim.Module{{Name: "m0"}, {Name: "m1", Deps: []string{"m0"}}}
+			sc := workScenario(mods, "service", pk, "finish", 0, nil)
+			disabledNotYetStopped(sc, reenable)
+			judge(t, sc)
+			n++
 		}
 	}
 	stats.CaseN(n, n, "exhaustive_work_kind_x_value_x_position")
@@ -159,6 +188,9 @@ func TestPropWorkPanics(t *testing.T) {
 	rapid.Check(t, func(t *rapid.T) {
 		mods := modsim.GenGraph(t, 1, 3)
 		kind := rapid.SampledFrom(panicWorkKinds).Draw(t, "kind")
+		if rapid.IntRange(0, 5).Draw(t, "service") == 0 {
+			kind = "service" // the kind with the most behaviour behind it (restart, back-off)
+		}
 		pk := rapid.SampledFrom(modsim.PanicKinds).Draw(t, "panic")
 		mode := rapid.SampledFrom([]string{"finish", "finish", "waitctx"}).Draw(t, "mode")
 		if mode == "waitctx" && (kind == "task" || kind == "schedtask") {
@@ -197,6 +229,9 @@ func TestPropWorkPanics(t *testing.T) {
 			}
 			sc.Steps = []modsim.Step{{Op: "start"}, {Op: "launch", Mods: allNames(sc)}, {Op: "sleep", US: 20000}, {Op: "shutdown"}}
 			stats.Class("service_panic_then_stop_during_backoff")
+		}
+		if kind == "service" && mode == "finish" && len(sc.Steps) > 4 && rapid.IntRange(0, 2).Draw(t, "disabled") == 0 {
+			disabledNotYetStopped(sc, rapid.Bool().Draw(t, "reenabled"))
 		}
 		res := judge(t, sc)
 		stats.Case(sc.Fingerprint(), true, "work_"+kind, "panic_"+pk, "mode_"+mode, fmt.Sprintf("healthy_%d", k))
